@@ -7,6 +7,9 @@ from checks_config import PROPS, NOT_APPLICABLE
 
 V = os.path.dirname(os.path.abspath(__file__))
 ids = [json.loads(l)["id"] for l in open(os.path.join(V, "properties.jsonl"))]
+# only integrated (reviewed, stable) checks are claimed
+READY = set(open(os.path.join(V, "config", "ready.txt")).read().split())
+PROPS = {k: v for k, v in PROPS.items() if k in READY}
 checks = []
 for pid in ids:
     if pid not in PROPS:
